@@ -30,6 +30,8 @@ BUDGET_S = {"quick": 600, "thorough": 900}
 def cases(tier, seed):
     for i in range(4000 if tier == "quick" else 120000):
         yield {"fam": "table", "i": i}
+    for i in range(2 if tier == "quick" else 16):
+        yield {"fam": "locale", "i": i}
 
 
 def setup(ctx):
@@ -169,6 +171,11 @@ def judge(ctx, st, groups, metrics, subjects, cells, via_file, tag=""):
 
 def run(case, ctx):
     i = case["i"]
+    if case.get("fam") == "locale":
+        # tables written by the aggregator with non-ASCII subject names, loaded in a process whose locale encoding is ASCII
+        from vf.props import c18
+
+        return c18.locale_roundtrip(ctx, 50 + i, ("subject_lookup_returns_other_value", "construction_raised"))
     groups, metrics, subjects, cells = make_table(ctx.seed, i)
     via_file = i % 3 != 0
     tmpdir = tempfile.mkdtemp(prefix="c20_", dir=os.environ.get("VERIF_TMP"))
